@@ -98,16 +98,16 @@ func histVec(r *rand.Rand, dim int, style int) []float32 {
 }
 
 type vecHistOpts struct {
-	serialize  bool // insert WriteTo / reload-into-fresh-index ops (C07)
-	nops       int
-	allowReuse bool // re-add ids after removal (C06)
-	allowDup   bool // add an id that is still live (outside the documented contract "ID: unique identifier"; the index stores a second entry)
-	trainFirst bool
-	ntrain     int
-	gauss      bool
-	fine       bool // near-duplicate coordinates (style 3 of histVec)
-	radii      bool // clusters of very different radius (style 4)
-	forceStyle int  // > 0: that style of histVec; < 0: style 0 (small pool, exact ties)
+	serialize        bool // insert WriteTo / reload-into-fresh-index ops (C07)
+	nops             int
+	allowReuse       bool // re-add ids after removal (C06)
+	allowDup         bool // add an id that is still live (outside the documented contract "ID: unique identifier"; the index stores a second entry)
+	trainFirst       bool
+	ntrain           int
+	gauss            bool
+	fine             bool // near-duplicate coordinates (style 3 of histVec)
+	radii            bool // clusters of very different radius (style 4)
+	forceStyle       int  // > 0: that style of histVec; < 0: style 0 (small pool, exact ties)
 	dumpBeforeSearch bool // every search is preceded by a dump of the index: the probe oracles always have the
 	// implementation's own centroids and lists to judge the answer by
 	tailPattern bool // once, past the middle of the history: flush, remove the first two and the last-but-one of the
@@ -150,7 +150,7 @@ func runVecHistory(r *rand.Rand, p vecParams, o vecHistOpts, t *Trace) *Case {
 	dist, _ := comet.NewDistance(metrics[p.metric])
 	var resident []liveVec // ids ever added successfully (and still resident or removed)
 	removed := map[uint32]bool{}
-	var vscript []int   // forced next operations (values of x)
+	var vscript []int     // forced next operations (values of x)
 	var vremoveQ []uint32 // targets of the scripted removals, in order
 	patternDone := false
 	var vremove uint32  // the id the next remove takes
